@@ -43,6 +43,7 @@ EXC_NAMES = [
     "ExceptionGroupClosed",
     "ExceptionGroupClosedOnly",
     "ExceptionGroupNested",
+    "ExceptionGroupUnsplittable",
 ]
 
 TCP_HOOKS = [
@@ -176,6 +177,11 @@ def st_case(draw: st.DrawFn, tier: str) -> dict:
 # exceptions from data
 
 
+class UnsplittableGroup(ExceptionGroup):  # type: ignore[type-arg]
+    def derive(self):  # type: ignore[no-untyped-def,override]  # noqa: ANN201 - wrong signature on purpose
+        return UnsplittableGroup(self.message, [])
+
+
 def make_exc(name: str, proto: str) -> BaseException:
     from easynetwork.exceptions import (
         ClientClosedError,
@@ -212,6 +218,10 @@ def make_exc(name: str, proto: str) -> BaseException:
             if proto == "udp":
                 return DatagramProtocolParseError(DeserializeError("injected"))
             return StreamProtocolParseError(b"", IncrementalDeserializeError("injected", b""))
+        case "ExceptionGroupUnsplittable":
+            # an application-defined group whose derive() cannot be called the way split() calls it: "an exception of any
+            # class raised by a request handler" - the server has to survive whatever happens when it inspects it
+            return UnsplittableGroup("injected", [ValueError("a"), CustomError("b")])
         case "ExceptionGroup":
             return ExceptionGroup("injected", [ValueError("a"), CustomError("b")])
         case "ExceptionGroupConn":
